@@ -282,33 +282,30 @@ def check(ctx):
         b_ = [b for b in rp.bindings.get(v_, []) if b[0] == "assign"]
         ok = len(b_) == 1 and b_[0][2] == (1,) and isinstance(b_[0][1], ast.Call) and rr.prep_run in m.callee_funcs(rp, b_[0][1])
     ctx.ob("C02.B5", f"{rp.short}/returns-slot-value", ok, loc(rp), "returns the output slot's value" if ok else "run_physical does not return the output slot's value")
-    mk = [f for f in m.funcs.values() if f.name == "_create_bound_call_lookup_and_output_slot"]
-    if len(mk) == 1:
-        f = mk[0]
-        onp = [p for p in f.params if "output" in p]
-        ok = False
-        if onp:
-            on = onp[0]
-            for nm in f.bindings:
-                ga = E.guarded_assigns(f, nm)
-                subs = [(c_, x) for c_, x in ga if isinstance(x, ast.Subscript) and isinstance(x.value, ast.Name) and is_name(x.slice, on)]
-                if len(subs) != 1:
-                    continue
-                nones = [(c_, x) for c_, x in ga if isinstance(x, ast.Constant) and x.value is None]
-                rest = [x for x in ga if x not in subs and x not in nones]
-                tb = subs[0][1].value.id
-                # the subscripted table is the per-run slot table (one fresh Slot per non-literal node)
-                def makes_cell(e_):
-                    # the expression constructs an instance of a repo class (the result cell), whatever that class is called
-                    return any(isinstance(c_, ast.Call) and any(o_[0] == "class" for o_ in m.callee_origins(f, c_)) for c_ in ast.walk(e_))
-                is_tbl = any(k == "assign" and isinstance(e, ast.DictComp) and makes_cell(e.value) for k, e, p_ in f.bindings.get(tb, [])) or \
-                    any(isinstance(x, ast.Assign) and isinstance(x.targets[0], ast.Subscript) and is_name(x.targets[0].value, tb) and makes_cell(x.value)
-                        for x in f.own_nodes())
-                ok = not rest and E.about(subs[0][0], on) == {(f"set:{on}", True)} and bool(nones) and \
-                    all(E.about(c_, on) <= {(f"set:{on}", False)} for c_, x in nones) and is_tbl
-                if ok:
-                    break
-        ctx.ob("C02.B5", f"{f.short}/output-slot", ok, loc(f), "output slot = slot-table entry of the output node (a literal is its own slot)" if ok else "output slot is not the slot-table entry of the output node")
+    # which slot is handed out as the output slot: evaluated on the symbolic plan for an output that is a call, a literal, absent
+    from .evalrules import RunEval as _RE
+    why_ = None
+    try:
+        ev_ = _RE(m, rr)
+        tb_, os_, pr_ = ev_.prepare("c")
+        for nd_ in (ev_.x, ev_.c):
+            ex_ = ev_.process(pr_, nd_)
+            if ex_ is not None:
+                raise AnalysisError(f"evaluating the run callback raised {ex_!r}")
+        if os_ is None or os_.attrs.get("value") != "Vc":
+            why_ = f"with a call as output, the output slot holds {None if os_ is None else os_.attrs.get('value')!r} after the call ran, not the call's result"
+        ev2_ = _RE(m, rr)
+        tb2_, os2_, pr2_ = ev2_.prepare("lit")
+        if why_ is None and (os2_ is None or os2_.attrs.get("value") != 7):
+            why_ = "with a literal as output, the output slot does not hold the literal's value"
+        ev3_ = _RE(m, rr)
+        tb3_, os3_, pr3_ = ev3_.prepare(None)
+        if why_ is None and os3_ is not None:
+            why_ = "without an output node an output slot is handed out all the same"
+    except AbsRaise as e_:
+        raise AnalysisError(f"abstract evaluation of the run preparation raised {e_.value!r}")
+    ctx.ob("C02.B5", f"{rr.prep_run.short}/output-slot", why_ is None, loc(rr.prep_run),
+           "evaluated: the output slot is the result cell of the output node (a literal is its own slot; none without an output)" if why_ is None else why_)
     pc = R.calls_to(m, rp, rr.prep_run)
     ok = len(pc) == 1 and is_name(arg(pc[0], None, "output_node"), "output_node")
     ctx.ob("C02.B5", f"{rp.short}/forwards-output-node", ok, loc(rp), "the output node reaches the preparation step")
